@@ -53,6 +53,15 @@ Replacement(t, m, total, fname, trans, items) ==
       undefwhy |-> IF \A i \in 1..Len(items) : parts[i].ok THEN ""
                    ELSE parts[CHOOSE i \in 1..Len(items) : ~parts[i].ok].why]
 
+(* the match carries a replacement once some item wrote to it (a string,    *)
+(* even the empty one, a bound name, or a transform); a `with` list whose   *)
+(* items all name nothing leaves it without one                             *)
+HasReplacement(t, m, total, fname, trans, items) ==
+  \E i \in 1..Len(items) :
+    \/ items[i].k = "str"
+    \/ items[i].name \in DOMAIN trans
+    \/ items[i].name \in DOMAIN ReplVars(t, m, total, fname)
+
 (* the text a replace command writes: every matched span substituted, every *)
 (* other byte preserved in order                                            *)
 RECURSIVE SpliceFrom(_, _, _, _)
